@@ -63,6 +63,19 @@ def handle : Handler := fun op inp impl =>
       model := Json.mkObj [("class", mCls), ("l", toJson mLs)],
       why := if holds then "" else
         s!"expand: accepted but sizes {ims.map (fun o => nat (field o "size"))} for offsets {offs.map (·.getD 0)} at limit {limit}, others/unchanged/rest flags {ims.map (fun o => bool (field o "others"))} {ims.map (fun o => bool (field o "unchanged"))} {rest}" }
+  | "sharp" =>
+    -- end to end, implementation half only: the real reference server / client enforce the
+    -- limit through connect-go; the predicate is the property's sentence itself
+    let limit := nat (field impl "limit")
+    let size := nat (field impl "size")
+    let outcome := str (field impl "outcome")
+    let want := if accepts limit size then "ok" else "resource_exhausted"
+    let holds := outcome == want && size > 0
+    { agree := holds, holds := holds, nontrivial := true,
+      cls := str (field inp "side") ++ ":" ++ outcome,
+      model := Json.mkObj [("outcome", want)],
+      why := if holds then "" else
+        s!"limit not sharp: message of {size} bytes against limit {limit} gave {outcome} ({str (field impl "detail")}), want {want}" }
   | _ => bad ("unknown op " ++ op)
 
 end ConfModel.Driver.C19
